@@ -4,6 +4,7 @@
 package litesrv
 
 import (
+	"bytes"
 	"crypto/sha256"
 	"encoding/binary"
 	"fmt"
@@ -325,6 +326,25 @@ func (s *Server) reply(c *core.Conn, qid []byte, answer []byte) {
 	if s.permille(s.Beh.BogusPermille) {
 		s.W.Probe("answer-with-unknown-id")
 		bogus := sha256.Sum256(append([]byte("bogus"), qid...))
+		// half of them are near misses of the id just asked: they share its first 8, 16 or 31 bytes, or all but
+		// the first byte (an id is the whole 256 bits)
+		if len(qid) == 32 {
+			switch s.W.Ch.Choose(8) {
+			case 0:
+				copy(bogus[:8], qid[:8])
+			case 1:
+				copy(bogus[:16], qid[:16])
+			case 2:
+				copy(bogus[:31], qid[:31])
+				bogus[31] = qid[31] ^ 0x01
+			case 3:
+				copy(bogus[1:], qid[1:])
+				bogus[0] = qid[0] ^ 0x80
+			}
+			if !bytes.Equal(bogus[8:], func() []byte { h := sha256.Sum256(append([]byte("bogus"), qid...)); return h[8:] }()) || bytes.Equal(bogus[:8], qid[:8]) {
+				s.W.Probe("answer-with-near-miss-id")
+			}
+		}
 		s.Push(c, s.AnswerPacket(bogus[:], []byte("BOGUS-answer-for-nobody")), now+s.think(), "bogus")
 	}
 	if s.permille(s.Beh.DropPermille) {
